@@ -19,11 +19,13 @@ package c15
 
 import (
 	"bytes"
+	"errors"
 	"fmt"
 	"os"
 	"strings"
 	"testing"
 
+	"github.com/nspcc-dev/neofs-node/pkg/local_object_storage/blobstor/common"
 	"github.com/nspcc-dev/neofs-node/verifharness/bubble"
 	"github.com/nspcc-dev/neofs-node/verifharness/c15/crashrig"
 	"github.com/nspcc-dev/neofs-node/verifharness/ev"
@@ -123,7 +125,15 @@ func TestC15Crash(t *testing.T) {
 			}
 			clear(wcDeleted)
 		}
+		enospcSingle, enospcBatch := false, false
 		r.OnStep = func(st crashrig.Step) {
+			if st.Comp == "blob" && st.After && errors.Is(st.Err, common.ErrNoSpace) {
+				if st.Method == "Put" {
+					enospcSingle = true
+				} else {
+					enospcBatch = true
+				}
+			}
 			k := ""
 			if len(kinds) > 0 {
 				k = kinds[len(kinds)-1]
@@ -154,8 +164,11 @@ func TestC15Crash(t *testing.T) {
 		cfgs := fmt.Sprintf("wc=%v cache=%d", cfg.WC, cfg.WCMaxSize)
 		n := rapid.IntRange(2, maxOps).Draw(t, "n")
 		for i := 0; i < n; i++ {
-			op := w.Draw(t, crashrig.Allow{Race: true, Reopen: true}, false)
+			op := w.Draw(t, crashrig.Allow{Race: true, Reopen: true, NoSpace: true}, false)
 			ops = append(ops, op)
+			r.Lock()
+			enospcSingle, enospcBatch = false, false
+			r.Unlock()
 			r.Begin(i, op.String())
 			if err := w.Apply(op); err != nil {
 				ev.Inconclusive("C15: %v (history %s)", err, crashrig.OpsString(ops))
@@ -177,6 +190,11 @@ func TestC15Crash(t *testing.T) {
 					// the first step" == end of the previous operation)
 					os.RemoveAll(s.Dir)
 					rec.Label("crash-point-with-already-verified-state")
+					if op.Kind == crashrig.KTickNoSpace && enospcSingle {
+						// a failed flush that changes nothing leaves the verified state
+						rec.Label("flush-single&ENOSPC")
+						rec.Label("flush-single&ENOSPC:state-unchanged")
+					}
 					continue
 				}
 				seen[dg] = true
@@ -196,6 +214,17 @@ func TestC15Crash(t *testing.T) {
 				}
 				if (op.Kind == crashrig.KTick || op.Kind == crashrig.KRace) && s.Inside {
 					labels = append(labels, "inside-background-flush")
+				}
+				if op.Kind == crashrig.KTickNoSpace {
+					// fault class: the flusher's blob write failed with "no space left";
+					// every snapshot of the period, in particular the one after it, is a
+					// state the node may stop in
+					if enospcSingle {
+						labels = append(labels, "flush-single&ENOSPC")
+					}
+					if enospcBatch {
+						labels = append(labels, "flush-batch&ENOSPC")
+					}
 				}
 				rec.Case(s.Inside, fmt.Sprintf("%s #%d %s", prefix, k, s.Point), labels...)
 				for _, v := range vs {
